@@ -28,8 +28,7 @@ property's literal bound, reported under this name only while model and code hav
 after a divergence it is `seized_late_after_divergence`), gen1_app3_offset_collision (generation 1, vault app id =
 lendtypes.AppID: both liveness monitors are reported under this name), seize_exact_collateral, one_auction, store_order,
 auction_type (generation 2: the auction opened for a seizure is Dutch iff the app has Dutch activated, English only when English
-is activated; nothing seized when neither is), gen1_msg_borrow_ignores_emode (a generation-1 MsgLiquidateBorrow flagged a borrow
-of an e-mode pair that is safe under the e-mode threshold), external_keeper_isolated (MsgLiquidateExternalKeeper / MsgAppReserveFunds
+is activated; nothing seized when neither is), external_keeper_isolated (MsgLiquidateExternalKeeper / MsgAppReserveFunds
 touch no vault, no borrow, no vault or pool custody; exactly one locked vault + one Dutch auction over exactly the delivered collateral),
 batch_validated (a zero batch size is rejected). -/
 -- DRIVER: prefix=liq ns=Comdex.Drv.Liquidation
@@ -218,14 +217,14 @@ def isAscending : List Nat → Bool
   | a :: b :: t => a < b && isAscending (b :: t)
   | _ => true
 
-/-- safety and seizure-effect monitors on a REAL transition. `gen` = generation; `borrowMsg` = the transition is a
-generation-1 `MsgLiquidateBorrow` (whose known defect — e-mode ignored — is reported under its own name). -/
-def effectMonitors (gen : Nat) (borrowMsg : Bool) (e : Env) (w : World) (r : Post) : List String :=
+/-- safety and seizure-effect monitors on a REAL transition. `gen` = generation. Every newly flagged borrow — by a sweep or by
+anybody's message of either generation — must be unsafe under the applicable (e-mode aware) threshold: `safe_never_seized`
+(this is what reports a revert of fix f18ae51, finding D38). -/
+def effectMonitors (gen : Nat) (e : Env) (w : World) (r : Post) : List String :=
   let gone := w.vaults.filter (fun v => !r.ids.contains v.id)
   let newB := w.borrows.filter (fun b => !b.liquidated && r.bl.contains b.id)
   let badB := newB.filter (fun b => !borrowUnsafe e b)
-  let emodeOnly := gen == 1 && borrowMsg && !badB.isEmpty && badB.all (fun b => b.emode && borrowUnsafeMsgV1 e b)
-  let safe := (gone.any (fun v => !vaultUnsafe e v)) || (!badB.isEmpty && !emodeOnly)
+  let safe := (gone.any (fun v => !vaultUnsafe e v)) || !badB.isEmpty
   let assetOfVault (v : Vault) : Nat := ((e.product? v.prod).map (·.assetIn)).getD 0
   let oneV (v : Vault) : Bool :=
     match r.nl.filter (fun l => l.orig == v.id && !l.isBorrow) with
@@ -271,7 +270,7 @@ def effectMonitors (gen : Nat) (borrowMsg : Bool) (e : Env) (w : World) (r : Pos
       0 ≤ w.poolBal.get a - r.poolBal.get a)
   -- generation 1 (D33): the pool gives up more of an asset than the seized borrows had pledged in it
   let exceeds := gen == 1 && assets.any fun a => w.poolBal.get a - r.poolBal.get a > sumB a + sumC a
-  (if safe then ["safe_never_seized"] else []) ++ (if emodeOnly then ["gen1_msg_borrow_ignores_emode"] else []) ++
+  (if safe then ["safe_never_seized"] else []) ++
   (if one then [] else ["one_auction"]) ++ (if aucType then [] else ["auction_type"]) ++
   (if exact then [] else ["seize_exact_collateral"]) ++ (if exceeds then ["gen1_selloff_exceeds_collateral"] else []) ++
   (if isAscending (w.vaults.map (·.id)) then [] else ["store_order"])
@@ -351,7 +350,7 @@ def handleBlock (st : St) (seq : String) (fs : List String) : St × List String 
       let sl := if outcome == "panic" && consistent then ["slice_bounds"] else
                 if outcome != "panic" && consistent &&
                    r.offsets.any (fun o => w.offsets.get? o.1 != some o.2 && o.2 > max w.counter w.borrows.length) then ["slice_bounds"] else []
-      let eff := if outcome == "panic" then [] else effectMonitors st.gen false st.env w r
+      let eff := if outcome == "panic" then [] else effectMonitors st.gen st.env w r
       let (tracks, live) := if outcome == "panic" then (st.tracks, [])
                             else liveMonitors { st with diverged := st.diverged || !diffs.isEmpty } w r
       -- ids are monotone and keys big-endian: a position that was not there after the previous block sorts after all seen so far
@@ -392,7 +391,7 @@ def handleMsg (st : St) (seq : String) (a b : Nat) (fs : List String) : St × Li
   handleMsgWith st seq fs
     (fun w => if st.gen == 2 then (if b == 0 then none else msgLiquidateV2K st.env a b w)
               else (if a == 0 || b == 0 then none else msgLiquidateVaultV1 st.env a b w))
-    (fun w r => effectMonitors st.gen false st.env w r)
+    (fun w r => effectMonitors st.gen st.env w r)
 
 /-- monitors of the two generation-2 messages that seize nobody: no vault, no borrow, no vault / pool custody may change;
 an accepted external liquidation opens exactly one locked vault (original id 0) and one Dutch auction over exactly `coll` -/
@@ -422,7 +421,7 @@ def handle (st : St) (seq : String) (f : List String) : St × List String :=
   | "liq.msg" :: a :: b :: fs => handleMsg st seq (nat! a) (nat! b) fs
   | "liq.msgb" :: b :: fs =>
     handleMsgWith st seq fs (fun w => if nat! b == 0 then none else msgLiquidateBorrowV1 st.env (nat! b) w)
-      (fun w r => effectMonitors 1 true st.env w r)
+      (fun w r => effectMonitors 1 st.env w r)
   | "liq.ext" :: a :: ca :: da :: camt :: damt :: ub :: fs =>
     let outcome := ((splitArrow fs).2.head?).getD ""
     handleMsgWith st seq fs
